@@ -11,14 +11,14 @@ From PV Require Import Lib.Base Lib.Utf8 Syntax.RGrammar Syntax.Code Model.PStat
    with the general procedure, recovery expressions scope-closed unless q_recover_scope
    is off) and stale_ok (predicate context). *)
 Theorem C01_refines_ref : forall c,
-  has_state (cT c) = true -> o_memoize (cO c) = false -> G_wf c -> stale_ok c -> t_leftrec (cT c) = false ->
+  state_ok c -> o_memoize (cO c) = false -> G_wf c -> stale_ok c -> t_leftrec (cT c) = false ->
   forall fuel, obs_equiv (parse c fuel) (rparse c fuel).
 Proof. exact parse_refines_rparse. Qed.
 Print Assumptions C01_refines_ref.
 
 (* expression level, every one of the 18 kinds *)
 Theorem C01_refines_ref_expr : forall c,
-  has_state (cT c) = true -> o_memoize (cO c) = false -> G_wf c -> stale_ok c -> t_leftrec (cT c) = false ->
+  state_ok c -> o_memoize (cO c) = false -> G_wf c -> stale_ok c -> t_leftrec (cT c) = false ->
   forall fuel, sim_spec c (parseExprWrap c fuel) (reval c fuel).
 Proof. exact impl_refines_ref. Qed.
 Print Assumptions C01_refines_ref_expr.
